@@ -340,3 +340,181 @@ func TestVerif_C11_Notifier(t *testing.T) {
 		}
 	})
 }
+
+// C11 (b) — candidate events of gathering cycles: one nil per completed cycle, after all of its candidates;
+// a cycle cancelled by Restart emits none; nothing after GracefulClose returned.
+func TestVerif_C11_GatherEvents(t *testing.T) {
+	st := vfNewStats(t)
+	rapid.Check(t, func(rt *rapid.T) {
+		cfg := c09Config{
+			Addrs: []string{"10.0.0.1", "10.0.1.1"}[:rapid.IntRange(1, 2).Draw(rt, "nAddrs")],
+			Types: rapid.SampledFrom([][]CandidateType{{CandidateTypeHost}, {CandidateTypeHost, CandidateTypeServerReflexive}}).Draw(rt, "types"),
+			StunMode: rapid.SampledFrom([]string{"now", "later", "never"}).Draw(rt, "stun"), TurnProto: "udp", TurnMode: "ok",
+		}
+		w, err := newC09World(cfg)
+		if err != nil {
+			rt.Fatalf("harness: %v", err)
+		}
+		slow := rapid.IntRange(0, 2).Draw(rt, "slowHandler")
+		var (
+			mu           sync.Mutex
+			events       []string
+			running      atomic.Int32
+			maxRunning   atomic.Int32
+			gracefulDone atomic.Bool
+			afterGrace   atomic.Int32
+		)
+		_ = w.agent.OnCandidate(func(c Candidate) {
+			if gracefulDone.Load() {
+				afterGrace.Add(1)
+			}
+			if n := running.Add(1); n > maxRunning.Load() {
+				maxRunning.Store(n)
+			}
+			defer running.Add(-1)
+			if slow > 0 {
+				c11Jitter(10 * slow)
+			}
+			mu.Lock()
+			defer mu.Unlock()
+			if c == nil {
+				events = append(events, "nil")
+
+				return
+			}
+			uf, _ := c.GetExtension("ufrag")
+			events = append(events, "cand:"+uf.Value)
+		})
+		nCycles := rapid.IntRange(1, 4).Draw(rt, "cycles")
+		var ufrags []string
+		completedBeforeRestart := map[string]bool{}
+		midCycle := false
+		for i := 0; i < nCycles; i++ {
+			u, _, _ := w.agent.GetLocalUserCredentials()
+			ufrags = append(ufrags, u)
+			if err := w.gather(); err != nil {
+				rt.Fatalf("harness: gather: %v", err)
+			}
+			if i == nCycles-1 {
+				break
+			}
+			when := rapid.SampledFrom([]string{"at-once", "mid", "mid", "after-complete"}).Draw(rt, "restartWhen")
+			switch when {
+			case "mid":
+				c11Jitter(rapid.IntRange(0, 60).Draw(rt, "jitter"))
+				if rapid.Bool().Draw(rt, "releaseSome") {
+					w.fn.releaseOne()
+				}
+			case "after-complete":
+				w.releaseEverything()
+				w.waitCycles()
+			}
+			var stateBefore GatheringState
+			_ = w.agent.loop.Run(w.agent.loop, nil2(func() { stateBefore = w.agent.gatheringState }))
+			if stateBefore == GatheringStateComplete {
+				completedBeforeRestart[u] = true
+			} else {
+				midCycle = true
+			}
+			if err := w.agent.Restart("", ""); err != nil {
+				rt.Fatalf("harness: restart: %v", err)
+			}
+		}
+		w.releaseEverything()
+		if !w.waitCycles() {
+			st.Inconclusive()
+			rt.Fatalf("VERIF-INCONCLUSIVE: gather cycle still running after 20 s")
+		}
+		done := make(chan struct{})
+		go func() { _ = w.agent.GracefulClose(); close(done) }()
+		select {
+		case <-done:
+		case <-time.After(25 * time.Second):
+			st.Inconclusive()
+			rt.Fatalf("VERIF-INCONCLUSIVE: GracefulClose still running")
+		}
+		gracefulDone.Store(true)
+		if n := running.Load(); n != 0 {
+			st.Fail(rt, "C11/graceful/handler-still-running", "%d candidate handler(s) running after GracefulClose returned", n)
+		}
+		mu.Lock()
+		ev := append([]string{}, events...)
+		mu.Unlock()
+		desc := fmt.Sprintf("%+v slow=%d cycles=%v events=%v", cfg, slow, ufrags, ev)
+		if maxRunning.Load() > 1 {
+			st.Fail(rt, "C11/gather/handler-overlap", "candidate handler ran %d times concurrently: %s", maxRunning.Load(), desc)
+		}
+		// per generation: candidates, then at most one nil; generations in order
+		pos := map[string]int{}
+		for i, u := range ufrags {
+			pos[u] = i
+		}
+		cur := -1
+		nilFor := map[int]int{}
+		lastGenWithCand := -1
+		for i, e := range ev {
+			if e == "nil" {
+				// attribute the nil to the latest generation that can own it: the one whose candidates precede it,
+				// or — if a generation published nothing — the next generation without a nil that completed
+				g := lastGenWithCand
+				if g < 0 || nilFor[g] > 0 {
+					g = cur + 1
+					for g < len(ufrags) && nilFor[g] > 0 {
+						g++
+					}
+				}
+				nilFor[g]++
+				if g > cur {
+					cur = g
+				}
+
+				continue
+			}
+			g, ok := pos[strings.TrimPrefix(e, "cand:")]
+			if !ok {
+				st.Fail(rt, "C11/gather/unknown-generation", "event %d %s carries a ufrag of no cycle: %s", i, e, desc)
+			}
+			if g < cur {
+				st.Fail(rt, "C11/gather/old-generation-after-new", "event %d %s belongs to an older generation than the previous events: %s", i, e, desc)
+			}
+			if nilFor[g] > 0 {
+				st.Fail(rt, "C11/gather/candidate-after-nil", "event %d %s arrives after the nil candidate of its own cycle: %s", i, e, desc)
+			}
+			cur, lastGenWithCand = g, g
+		}
+		total := 0
+		for g, n := range nilFor {
+			total += n
+			if n > 1 {
+				st.Fail(rt, "C11/gather/extra-nil", "cycle %d has %d nil candidates: %s", g, n, desc)
+			}
+		}
+		must := 1 // the last cycle ran to completion
+		for _, u := range ufrags[:len(ufrags)-1] {
+			if completedBeforeRestart[u] {
+				must++
+			}
+		}
+		if total < must {
+			st.Fail(rt, "C11/gather/missing-nil", "%d nil candidate(s), at least %d cycles ran to completion: %s", total, must, desc)
+		}
+		if total > len(ufrags) {
+			st.Fail(rt, "C11/gather/extra-nil", "%d nil candidates for %d cycles: %s", total, len(ufrags), desc)
+		}
+		if len(ev) > 0 && ev[len(ev)-1] != "nil" {
+			st.Fail(rt, "C11/gather/nil-not-last", "the completed last cycle's nil candidate is not the last event: %s", desc)
+		}
+		time.Sleep(200 * time.Microsecond)
+		if afterGrace.Load() != 0 {
+			st.Fail(rt, "C11/graceful/handler-after-return", "%d candidate event(s) delivered after GracefulClose returned", afterGrace.Load())
+		}
+		labels := []string{fmt.Sprintf("cycles:%d", nCycles)}
+		if midCycle {
+			labels = append(labels, "restart-mid-cycle")
+		}
+		st.Record(vfHashStr(desc), midCycle, labels...)
+		if midCycle && st.WantSample() {
+			st.Sample(func() string { return desc })
+		}
+	})
+}
